@@ -98,6 +98,29 @@ CLAIMED = {
                      "registry clearing, declaration of up to two domain-less variables and (re-)evaluation of their queries; each "
                      "query result is compared by identity with the harness's own log of live instances, and symbolic construction "
                      "must neither register nor run __init__. No data is involved: the solver adds no generalisation beyond the bound."),
+    "C15": dict(design_ref="DESIGN.md 7/C15",
+                text="Bounded-exhaustive symbolic execution: sub-queries an(entity(v, c)) / an(set_of(vs, c)) combined by & | and_ "
+                     "or_ (depth <=2, also as several conditions of entity) with each other and with plain conditions over one and "
+                     "two variables; the composed query, the flattened query and the reference are proved equal for EVERY data "
+                     "valuation; an(...)/the(...) as comparison operand (either side, four operators) and as predicate-form "
+                     "argument restrict the operand to the sub-query's solutions (for the(...): stated when exactly one solution "
+                     "exists, and a raise is proved consistent with 0 / >=2 solutions)."),
+    "C16": dict(design_ref="DESIGN.md 7/C16",
+                text="Bounded-exhaustive symbolic execution: each parent's inner collection has SYMBOLIC membership over a shared "
+                     "candidate pool (empty, overlapping, different lengths; a bare element as variant); for every selection ({e}, "
+                     "{p,e}, {e,p}, {p.k,e}, {p,e.w}, {e.w}) and extra condition (none, on e, on p, relating both, and/or/not) the "
+                     "row set is proved equal to {(p, x) | x in p.items and extra} projected, with no (parent, element) pair twice."),
+    "C17": dict(design_ref="DESIGN.md 7/C17",
+                text="Bounded-exhaustive symbolic execution: with symbolic membership (and a candidate sequence naming one object "
+                     "twice, and a bare element) an(entity(concatenate(p.items))) is proved to yield exactly one row whose value, as "
+                     "a SEQUENCE of identities, is the ordered concatenation with multiplicity (z3 prefix-count encoding); in_ / "
+                     "contains and their negations against an outer domain select exactly the members / non-members."),
+    "C18": dict(design_ref="DESIGN.md 7/C18",
+                text="Bounded-exhaustive symbolic execution of pairs (q, rewrite(q)) in one path on the same symbolic data: every "
+                     "single rewrite (swap operands, re-associate/flatten chains, operator vs function spelling, conditions passed "
+                     "separately, mirror a comparison, contains<->in_, declaration order, selection order, rotate/reverse a domain) "
+                     "at every applicable position of the base queries, plus sampled compositions (2 quick, 3 thorough); row sets are "
+                     "compared concretely and each side is proved equal to the reference."),
 }
 
 NOT_APPLICABLE = {pid: PENDING for pid in ["C%02d" % i for i in range(1, 21)] if pid not in CLAIMED}
